@@ -53,6 +53,8 @@ func buildAtomTable() []AtomRow {
 		{Kind: "in", Arg: YSeq(YStr("a"), YStr("b")), Sat: strs("a", "b"), Viol: strs("c", "ab"), Class: "value"},
 		{Kind: "in", Arg: YSeq(YInt(1), YInt(2)), Sat: []Lit{I(1), I(2)}, Viol: []Lit{I(3), I(12)}, Class: "value"},
 		{Kind: "in", Arg: YSeq(YBool(true)), Sat: []Lit{B(true)}, Viol: []Lit{B(false)}, Class: "value"},
+		// lists with repeated values denote the same set
+		{Kind: "in", Arg: YSeq(YStr("a"), YStr("b"), YStr("c"), YStr("d"), YStr("e"), YStr("a")), Sat: strs("a", "e", "c"), Viol: strs("f", "ae"), Class: "value"},
 	}
 	for n := 1; n <= 3; n++ {
 		t = append(t, AtomRow{Kind: "minCount", Arg: YInt(int64(n)), N: n, Class: "count"})
@@ -68,6 +70,8 @@ func buildAtomTable() []AtomRow {
 		AtomRow{Kind: "containsAll", Arg: YSeq(YInt(1)), Set: []string{"1"}, Class: "set"},
 		AtomRow{Kind: "containsSome", Arg: YSeq(YStr("a"), YStr("b")), Set: []string{"a", "b"}, Class: "set"},
 		AtomRow{Kind: "containsSome", Arg: YSeq(YStr("a"), YStr("b"), YStr("c")), Set: []string{"a", "b", "c"}, Class: "set"},
+		AtomRow{Kind: "containsAll", Arg: YSeq(YStr("a"), YStr("b"), YStr("a"), YStr("b")), Set: []string{"a", "b"}, Class: "set"},
+		AtomRow{Kind: "containsSome", Arg: YSeq(YStr("c"), YStr("a"), YStr("b"), YStr("c"), YStr("a")), Set: []string{"a", "b", "c"}, Class: "set"},
 		AtomRow{Kind: "lessThanProperty", Class: "cmp"},
 		AtomRow{Kind: "lessThanOrEqualsToProperty", Class: "cmp"},
 		AtomRow{Kind: "equalsToProperty", Class: "cmp"},
